@@ -357,6 +357,11 @@ func resourceShapes(thorough bool) []shape {
 			return "S1F1\n<L\n" + repeat("<B 0x01>\n", 60) + repeat("<L", n) + repeat(">", n) + "\n>\n."
 		})
 	}
+	// as many scalar siblings as nesting levels: if anything but lists moves the depth counter, the
+	// bound on the nesting is gone and the recursion runs as deep as the input is long
+	add("scalars-then-nest-4000000", func() string {
+		return "S1F1\n<L\n" + repeat("<B 1>", 4000000) + repeat("<L", 4000000)
+	})
 	big := 20000
 	if thorough {
 		big = 100000
